@@ -486,6 +486,6 @@ func init() {
 		Level:       "other",
 		Explanation: "Structural necessary conditions of 'only complete, successful results reach the Action Cache': the AC Put is dominated by both guards on the stored response and the success predicate's full table is 'status OK and exit 0'; first error wins; the flush-failure branch depends on the flush error alone, attaches it and clears all advertised digests and logs; in the batching store every storage error reaches flushError, the flush function flushes on every path and returns the recorded error, Put refuses after an error, buffers are consumed once; bb_worker composes local -> flushing -> caching over one batching store. The composed pipeline under every run-time fault position is not decided.",
 		Assumptions: []string{"decorators between flushing and caching pass the response through"},
-		Rules:       []RuleFunc{c09Guard, c09Prune, c09Batched, c09Wiring, c09StickyError, c09WriteErrors, c09SharedErrorState, c09UploadStores, c09UploadStoresVirtual, c09UploadErrorsSaved},
+		Rules:       []RuleFunc{c09Guard, c09Prune, c09Batched, c09Wiring, c09StickyError, c09WriteErrors, c09SharedErrorState, c09UploadStores, c09UploadStoresVirtual, c09UploadErrorsSaved, c09ExecuteUploadErrors},
 	})
 }
